@@ -80,6 +80,11 @@ class WcMatch(Generic[AnyStr]):
         """Initialize the directory walker object."""
 
         self.is_bytes = isinstance(root_dir, bytes)
+        for pattern in (file_pattern, exclude_pattern):
+            if pattern is not None and isinstance(pattern, bytes) != self.is_bytes:
+                raise TypeError(
+                    f'Patterns and root_dir should be of the same type, not {type(pattern)} and {type(root_dir)}'
+                )
         self._directory = self._norm_slash(root_dir)  # type: AnyStr
         self._abort = False
         self._skipped = 0
